@@ -39,6 +39,7 @@ def sh(cmd, cwd=None, env=None, timeout=None, capture=True):
 #   (a) one `#[cfg(kani)] #[path = ".."] mod verif_h;` item appended to the end of each module
 #       file a property needs (the harness module is a *child* of the module it verifies, so the
 #       real private items are in scope);
+#   (c) one `#![cfg_attr(kani, recursion_limit = "1024")]` line prepended to src/lib.rs;
 #   (b) `#[kani::requires/ensures(..)]` attribute lines inserted directly above the `fn` line of
 #       each function under an in-place contract (table: kani/contracts.py), located by an anchor
 #       regex that must match exactly once — otherwise the check is Undecided (exit 2).
@@ -132,6 +133,14 @@ def prepare_crate(tag, modules, contract_groups):
         with open(p, "w") as f:
             f.write("\n".join(lines))
     # (a) harness modules
+    # (c) one crate-level attribute (first line of src/lib.rs): harnesses carry many #[kani::stub]
+    #     attributes and their nested expansion exceeds rustc's default macro recursion limit.
+    libp = os.path.join(crate, "src", "lib.rs")
+    with open(libp) as f:
+        libsrc = f.read()
+    with open(libp, "w") as f:
+        f.write('#![cfg_attr(kani, recursion_limit = "1024")]\n' + libsrc)
+    report["crate_attribute"] = '#![cfg_attr(kani, recursion_limit = "1024")] prepended to src/lib.rs'
     hdir = os.path.join(crate, "verif_kani")
     if os.path.isdir(hdir):
         shutil.rmtree(hdir)
